@@ -73,8 +73,15 @@ def run(pid, tier):
                     nrounds = 1
                 env = dict(os.environ, VERIF_SEED=str(vlib.SEED + rep),
                            TSAN_OPTIONS="halt_on_error=0 exitcode=0 report_signal_unsafe=0")
-                r = subprocess.run([drv, str(nthreads), str(nrounds),
-                                    prefix], capture_output=True, text=True, timeout=1500, env=env)
+                try:
+                    r = subprocess.run([drv, str(nthreads), str(nrounds), prefix], capture_output=True, text=True,
+                                       timeout=420 if tier == "quick" else 1500, env=env)
+                except subprocess.TimeoutExpired:
+                    # a hang under concurrency (e.g. a corrupted allocator lock) is handled like a crash below
+                    class _R:
+                        returncode, stderr = -99, "hang: the threads did not finish"
+                    r = _R()
+                    subprocess.run(["pkill", "-9", "-f", prefix], capture_output=True)
                 if r.returncode != 0 or not os.path.exists(prefix + "-alone.ndjson"):
                     # (under TSan a fatal signal can still end in exit code 0: the missing reference file tells)
                     # a crash under concurrency is a violation only if the same calls survive a single thread
